@@ -1,6 +1,8 @@
 (* MODEL: maps_model *)
 (* case:  <id> MAP <n0> <op;op;...|-> <op> <op> ...    every <op> applied (independently) to the state reached by the path
           <id> SEQ <n0> <op> <op> ...                  ops applied in sequence
+          <id> BIND <src|api> <bop> <bop> ...          T=k=v.. | S=i=k=v | D=i=k | A=i=j | R=i | X=i=lo=hi : each makes a new binding;
+                                                       obs = the states of ALL bindings after the op, joined by ';'
    op  :  S=<k>=<v>  G=<k>  D=<k>  A=<n0>=<M{..}>  P=<n0>=<M{..}>  F  R  X=<lo>=<hi>  L  I  Q=<n0>=<M{..}>
           T=<k1>=<v1>=<k2>=<v2>...  (evalMapLiteral of the written pairs: the state becomes that literal)
    out :  <id> <obs> <obs> ...   obs = <s|b><content after the op>|<result>    or  P  (Go failure)
@@ -111,6 +113,30 @@ let () = iter_lines (fun line ->
     (try
        let st = ref (mnew (z_of_int (int_of_string n0))) in
        let obs = List.map (fun t -> let (m', o) = apply !st t in st := m'; o) ops in
+       print_endline (String.concat " " (id :: obs))
+     with Skip -> print_endline (id ^ " SKIP"))
+  | id :: "BIND" :: _mode :: ops ->
+    (* several bindings: each op makes a new binding from earlier ones; after each op all bindings are printed *)
+    (try
+       let nat s = nat_of_int (int_of_string s) in
+       let rec pairs = function
+         | k :: v :: rest -> (parse_value k, parse_value v) :: pairs rest
+         | [] -> []
+         | _ -> failwith "bad literal" in
+       let parse tok = match String.split_on_char '=' tok with
+         | "T" :: items -> BLit (pairs items)
+         | ["S"; i; k; v] -> BSet (nat i, parse_value k, parse_value v)
+         | ["D"; i; k] -> BDel (nat i, parse_value k)
+         | ["A"; i; j] -> BAppend (nat i, nat j)
+         | ["R"; i] -> BRest (nat i)
+         | ["X"; i; lo; hi] -> BRange (nat i, nat lo, nat hi)
+         | _ -> failwith ("bad binding op " ^ tok) in
+       let st = ref [] and dead = ref false in
+       let obs = List.map (fun t ->
+           if !dead then "P" else
+           match bnew cmp_c !st (parse t) with
+           | Val m -> st := !st @ [m]; String.concat ";" (List.map state_str !st)
+           | GoPanic -> dead := true; "P") ops in
        print_endline (String.concat " " (id :: obs))
      with Skip -> print_endline (id ^ " SKIP"))
   | _ -> ())
